@@ -19,10 +19,12 @@ import (
 	"encoding/json"
 	"errors"
 	"fmt"
+	"math/rand/v2"
 	"os"
 	"os/exec"
 	"path/filepath"
 	"reflect"
+	"sort"
 	"strconv"
 	"strings"
 	"syscall"
@@ -54,7 +56,7 @@ func main() {
 	}
 	r.Rule("history = (fixed or seeded DAG, AutoSaveIndex, AutoGC, optional existing layout built beforehand, prefix operations run in the same process, ONE interrupted operation ∈ Push blob/manifest, Tag, re-tag, Untag, Delete (AutoGC off/on with cascades and referrers), SaveIndex, GC); " +
 		"for each history: count run (N = file-system-mutating system calls inside the operation), then one fresh directory copy and one traced run per k=1..N with SIGKILL at the entry of the k-th call, plus the completed run; " +
-		"oracle per crashed directory: oci.NewFromFS and oci.New succeed, every file under blobs/ hashes to its name, every index.json entry names an existing blob of the recorded size, tag→descriptor mapping equals the mapping before or after the operation (from uninterrupted runs), every blob present both before and after is present. " +
+		"oracle per crashed directory: oci.NewFromFS and oci.New succeed, every file under blobs/ hashes to its name, every index.json entry names an existing blob of the recorded size, tag→descriptor mapping equals the mapping before or after the operation (from uninterrupted runs), every blob present both before and after is present; then a continuation on every accepted crashed directory: reopen read-write, 1–2 further operations (biased to Untag/Delete/GC, which shorten index.json), reopen via fs.FS and read-write: must open, be a valid layout and observe exactly what the continued store observes (predecessor answers differing only in manifests the crash left stored but unlisted are not judged). " +
 		"evaluations = judged directories; distinct = history shape (options, prefix kinds, interrupted operation, syscall sequence); non-trivial = N ≥ 3 and ≥ 2 distinct on-disk crash states observed")
 	r.Assume("process crash, not power loss: data written by completed write calls is visible after SIGKILL (page cache)")
 	r.Assume("one interrupted operation per history, issued from one goroutine; run-to-run differences in map iteration order may permute the system calls of Delete cascades, every k of each traced run is still killed at its own k-th call")
@@ -104,6 +106,7 @@ func (s *Script) nodes() []ocicheck.Node {
 }
 
 type signature struct {
+	Live    map[string]string `json:"live"` // what the live store answers after the prefix
 	Tags    map[string]string `json:"tags"`
 	Digests map[string]string `json:"digests"`
 }
@@ -122,9 +125,10 @@ func readSig(outFile string) (*signature, string) {
 }
 
 type outcome struct {
-	Prefix []string `json:"prefix"`
-	Target string   `json:"target"`
-	TgtErr string   `json:"target_error,omitempty"`
+	Prefix []string          `json:"prefix"`
+	Target string            `json:"target"`
+	TgtErr string            `json:"target_error,omitempty"`
+	Live   map[string]string `json:"live,omitempty"` // what the live store answers after the operation
 }
 
 // crashChild: --crashchild <script.json> <dir> <full|before> <outcome file>
@@ -160,6 +164,7 @@ func crashChild(args []string) {
 	// two media types in map-iteration order)
 	if ro, err := oci.NewFromFS(ctx, os.DirFS(args[1])); err == nil {
 		var sg signature
+		sg.Live, _ = ocicheck.TagMap(ctx, st)
 		sg.Tags, _ = ocicheck.TagMap(ctx, ro)
 		sg.Digests = map[string]string{}
 		for _, n := range nodes {
@@ -178,6 +183,7 @@ func crashChild(args []string) {
 		err := ocicheck.Apply(ctx, st, nodes, sc.Target)
 		mon.Mark(2)
 		out.Target = ocicheck.ErrClass(err)
+		out.Live, _ = ocicheck.TagMap(ctx, st)
 		if err != nil {
 			out.TgtErr = err.Error()
 		}
@@ -259,6 +265,128 @@ func judge(dir string, sc *Script, before, after *snapshot) (*snapshot, []viol) 
 		}
 	}
 	return snap, vs
+}
+
+// continuation restarts on a crashed (and accepted) layout: the directory is
+// opened read-write, one or two further operations run (biased to the ones
+// that make index.json shorter: Untag, Delete, GC), the index is saved, and the
+// directory is opened again: it must open, be a valid layout, and every reopen
+// path must observe exactly what the continued store observes.
+func continuation(dir string, sc *Script, nodes []ocicheck.Node, rng *rand.Rand) ([]ocicheck.Op, *viol) {
+	// manifests that the crash left stored but not listed in index.json (allowed
+	// garbage, or children of a listed parent): the restarted store does not know
+	// them as manifests of their own, a store reopened later may (once a tag or a
+	// pushed parent lists them) — predecessor answers that differ only in such
+	// manifests are not judged
+	unlisted := map[string]bool{}
+	if rep := ocicheck.Validate(dir); rep.Index != nil {
+		listed := map[string]bool{}
+		for _, e := range rep.Index.Manifests {
+			listed[e.Digest.String()] = true
+		}
+		for _, n := range nodes {
+			if _, stored := rep.Blobs[n.Desc.Digest.String()]; n.Manifest && stored && !listed[n.Desc.Digest.String()] {
+				unlisted[ocicheck.PredKey(n.Desc)] = true
+			}
+		}
+	}
+	st, err := oci.New(dir)
+	if err != nil {
+		return nil, &viol{"continuation:reopen-failed", "oci.New: " + err.Error()}
+	}
+	st.AutoSaveIndex, st.AutoGC = sc.AutoSave, sc.AutoGC
+	var done []ocicheck.Op
+	nOps := 1 + rng.IntN(2)
+	for k := 0; k < nOps; k++ {
+		tags, _ := ocicheck.TagMap(ctx, st)
+		var names []string
+		for t := range tags {
+			names = append(names, t)
+		}
+		sort.Strings(names)
+		var have, haveManifests []int
+		for _, n := range nodes {
+			if ok, err := st.Exists(ctx, n.Desc); err == nil && ok {
+				have = append(have, n.ID)
+				if n.Manifest {
+					haveManifests = append(haveManifests, n.ID)
+				}
+			}
+		}
+		var op ocicheck.Op
+		switch x := rng.IntN(20); {
+		case x < 8 && len(names) > 0:
+			op = ocicheck.Op{Kind: "untag", Ref: names[rng.IntN(len(names))]}
+		case x < 13 && len(haveManifests) > 0:
+			op = ocicheck.Op{Kind: "delete", Node: haveManifests[rng.IntN(len(haveManifests))]}
+		case x < 14 && len(have) > 0:
+			op = ocicheck.Op{Kind: "delete", Node: have[rng.IntN(len(have))]}
+		case x < 17:
+			op = ocicheck.Op{Kind: "gc"}
+		case x < 19 && len(have) > 0:
+			op = ocicheck.Op{Kind: "tag", Node: have[rng.IntN(len(have))], Ref: []string{"after-crash", "v1", "latest"}[rng.IntN(3)]}
+		default:
+			op = ocicheck.Op{Kind: "push", Node: rng.IntN(len(nodes))}
+		}
+		op.Err = ocicheck.ErrClass(ocicheck.Apply(ctx, st, nodes, op))
+		done = append(done, op)
+	}
+	if !sc.AutoSave {
+		if err := st.SaveIndex(); err != nil {
+			return done, &viol{"continuation:saveindex-failed", err.Error()}
+		}
+	}
+	rep := ocicheck.Validate(dir)
+	if len(rep.Problems) > 0 {
+		return done, &viol{"continuation:ondisk:" + rep.Problems[0].Key, rep.Problems[0].What}
+	}
+	if len(rep.UnnamedMissing) > 0 && sc.AutoSave {
+		return done, &viol{"continuation:index-entry-missing-blob", rep.UnnamedMissing[0]}
+	}
+	var digests []string
+	for _, n := range nodes {
+		digests = append(digests, n.Desc.Digest.String())
+	}
+	refs := []string{"after-crash", "v1", "latest"}
+	a := ocicheck.Observe(ctx, st, nodes, refs, digests)
+	for _, how := range []string{"fs", "rw"} {
+		ro, cleanup, err := ocicheck.Reopen(ctx, dir, how, "")
+		if err != nil {
+			return done, &viol{"continuation:reopen-failed", fmt.Sprintf("reopening (%s) after the continuation: %v", how, err)}
+		}
+		b := ocicheck.Observe(ctx, ro, nodes, refs, digests)
+		cleanup()
+		for _, d := range ocicheck.Diff(a, b) {
+			if d.Field == "predecessors" && onlyIn(d.A, d.B, unlisted) {
+				continue
+			}
+			return done, &viol{"continuation:obs-diff:" + d.Field, fmt.Sprintf("%s %q: continued store answers %s, reopened (%s) answers %s", d.Field, d.Item, d.A, how, d.B)}
+		}
+	}
+	return done, nil
+}
+
+// onlyIn reports whether two space-separated predecessor lists differ only in members of set.
+func onlyIn(a, b string, set map[string]bool) bool {
+	in := func(s string) map[string]bool {
+		m := map[string]bool{}
+		for _, k := range strings.Fields(s) {
+			m[k] = true
+		}
+		return m
+	}
+	ma, mb := in(a), in(b)
+	for k := range ma {
+		if !mb[k] && !set[k] {
+			return false
+		}
+	}
+	for k := range mb {
+		if !ma[k] && !set[k] {
+			return false
+		}
+	}
+	return true
 }
 
 func runChild(timeout time.Duration, name string, args ...string) (int, string, bool) {
@@ -445,6 +573,20 @@ func runCase(phase string, i int) worker.Result {
 	}
 	after, vs := judge(afterDir, &sc, nil, nil)
 	res.Evals++
+	if sc.AutoSave && len(vs) == 0 {
+		// effects of operations that had returned are present on disk: what the live store
+		// answered (tag → descriptor) after the prefix / after the completed operation is
+		// what a reopened store answers
+		if refSig.Live != nil && !reflect.DeepEqual(refSig.Live, before.mapping) {
+			res.Violate("returned-effect-lost:prefix-tags", fmt.Sprintf("%s: after the prefix returned the live store answers %v, the directory holds %v", sc.Name, refSig.Live, before.mapping), wit(nil))
+			return res
+		}
+		if oc.Live != nil && !reflect.DeepEqual(oc.Live, after.mapping) {
+			res.Violate("returned-effect-lost:"+sc.Target.Kind, fmt.Sprintf("%s: after %s returned the live store answers %v, the directory holds %v", sc.Name, sc.Target, oc.Live, after.mapping), wit(nil))
+			return res
+		}
+		res.Count("returned_effect_comparisons", 2)
+	}
 	if len(vs) > 0 {
 		// the completed operation itself leaves a state the oracle rejects
 		res.Violate(vs[0].key, fmt.Sprintf("%s: completed %s: %s", sc.Name, sc.Target, vs[0].what), wit(map[string]any{"k": "completed", "problems": vs}))
@@ -500,6 +642,21 @@ func runCase(phase string, i int) worker.Result {
 			}
 			res.Violate(vs[0].key, fmt.Sprintf("%s: killed before counted call %d/%d (%s) of %s: %s", sc.Name, k, n, at, sc.Target, vs[0].what),
 				wit(map[string]any{"k": k, "n": n, "syscalls": strings.Join(seq, " "), "problems": vs, "temp_files": ocicheck.Validate(d).TempFiles}))
+		}
+		if len(vs) == 0 {
+			// life goes on after the crash: restart on the crashed layout, operate, reopen
+			crng := evidence.RandFor(seed, "c10-cont-"+phase, i*1000+k)
+			cops, cv := continuation(d, &sc, nodes, crng)
+			res.Count("continuations", 1)
+			res.Count("continuation_ops", int64(len(cops)))
+			for _, o := range cops {
+				res.Observe("continuation_op_outcomes", o.Kind+"/"+o.Err)
+			}
+			if cv != nil && reported < 3 {
+				reported++
+				res.Violate(cv.key, fmt.Sprintf("%s: killed before counted call %d/%d of %s, then restarted and ran %v: %s", sc.Name, k, n, sc.Target, cops, cv.what),
+					wit(map[string]any{"k": k, "n": n, "syscalls": strings.Join(seq, " "), "continuation": cops}))
+			}
 		}
 		os.RemoveAll(d)
 	}
